@@ -832,6 +832,61 @@ def check_view(run, exe, model, cases, scratch, fixflags="1 1"):
 
 
 # ==========================================================================================
+# shared eABF: CZAR gather
+# ==========================================================================================
+
+def gen_czar(r, cid):
+    n = r.choice([2, 3, 4])
+    nb = r.randint(3, 5)
+    T = r.randint(4, 9)
+    steps = [[(r.randint(0, nb - 1), r.choice([0.5, 0.25, 0.75]), V.dyadic(r, -4, 4)) for _ in range(n)] for _ in range(T)]
+    gather_at = sorted(set([T - 1] + ([r.randint(1, T - 1)] if r.random() < 0.5 else [])))
+    return {"kind": "czar", "id": cid, "n": n, "nbins": nb, "freq": r.choice([2, 3, 100]), "steps": steps, "gather_at": gather_at}
+
+
+def check_czar(run, exe, model, cases, scratch):
+    for c in cases:
+        run.dist("czar:n=%d" % c["n"])
+        run.count(json.dumps([c["steps"], c["gather_at"], c["freq"]]), True)
+        run.sample({"kind": "czar", "n": c["n"], "nbins": c["nbins"], "freq": c["freq"], "gather_at": c["gather_at"], "steps": c["steps"][:3]}, cap=7)
+        try:
+            res, stats = scen.run_czar(exe, c, scratch, timeout=15.0)
+        except W.WalkerTimeout as e:
+            run.violation("czar:gather-deadlock", "the walkers did not complete the collective CZAR gather (%s)" % str(e)[:200], {"kind": "czar", "case": c})
+            continue
+        lines = []
+        for (t, dumps, pr) in res:
+            if any(d is None or d.get("zcnt") is None for d in dumps):
+                run.violation("czar:no-state", "a walker printed no CZAR state after the gather at step %d" % t, {"kind": "czar", "case": c})
+                lines = None
+                break
+            lines.append("CZAR %d %d %s %s" % (c["n"], len(dumps[0]["zcnt"]), ";".join(",".join(str(x) for x in d["zcnt"]) for d in dumps),
+                                                ";".join(",".join(V.hexf(x) for x in d["zsum"]) for d in dumps)))
+        if not lines:
+            continue
+        rc, mout, err = V.run_lines(model, lines, timeout=300)
+        if rc != 0 or len(mout) != len(lines):
+            raise V.InfraError("C14 model driver failed: rc=%s %s" % (rc, err[-500:]))
+        for (t, dumps, pr), mo in zip(res, mout):
+            g = dumps[0]
+            # oracle on the implementation alone: replica 0's gathered grids = sum of every walker's z grids, each once
+            ecnt = [sum(d["zcnt"][i] for d in dumps) for i in range(len(g["zcnt"]))]
+            esum = list(dumps[0]["zsum"])
+            for d in dumps[1:]:
+                esum = [a + b for a, b in zip(esum, d["zsum"])]
+            if g["gzcnt"] != ecnt or any(not close(a, b, False) for a, b in zip(g["gzsum"], esum)):
+                run.violation("czar:gather-not-the-sum", "after the gather at step %d replica 0 holds z counts %s, the walkers' z counts are %s (sum %s)"
+                              % (t, g["gzcnt"], [d["zcnt"] for d in dumps], ecnt), {"kind": "czar", "case": c, "step": t})
+                break
+            tk = mo.split()
+            mc = [int(x) for x in tk[1][4:].split(",")]
+            ms = [float.fromhex(x) for x in tk[2][4:].split(",")]
+            if mc != g["gzcnt"] or any(not close(a, b, False) for a, b in zip(ms, g["gzsum"])):
+                run.mismatch("czar", {"case": c, "step": t}, {"gzcnt": g["gzcnt"], "gzsum": g["gzsum"]}, {"cnt": mc, "sum": ms})
+                break
+
+
+# ==========================================================================================
 
 def load_corpus():
     cases = []
@@ -847,6 +902,7 @@ def run_cases(run, exe, model, cases, scratch):
     check_abf(run, exe, model, [c for c in cases if c["kind"] == "abf"], scratch)
     check_meta(run, exe, model, [c for c in cases if c["kind"] == "meta"], scratch)
     check_view(run, exe, model, [c for c in cases if c["kind"] == "view"], scratch)
+    check_czar(run, exe, model, [c for c in cases if c["kind"] == "czar"], scratch)
 
 
 def check(run):
@@ -867,6 +923,7 @@ def check(run):
         cases += [gen_meta(r, "m%d" % i) for i in range(nm)]
         cases += [gen_view(r, "v%d" % i) for i in range(nv)]
         cases += [gen_view(r, "x%d" % i, robust=True) for i in range(nr)]
+        cases += [gen_czar(r, "z%d" % i) for i in range(8 if quick else 150)]
         run_cases(run, exe, model, cases, scratch)
     finally:
         leftover = V.sh(["pgrep", "-f", exe])[1].split()
@@ -887,7 +944,7 @@ def replay(path):
     print(json.dumps(j, indent=1)[:6000])
     def find_case(x):
         if isinstance(x, dict):
-            if x.get("kind") in ("abf", "meta", "view") and "events" in x:
+            if x.get("kind") in ("abf", "meta", "view", "czar") and ("events" in x or "steps" in x):
                 return x
             for v in x.values():
                 c = find_case(v)
